@@ -218,4 +218,160 @@ theorem tdStep_so (C : TCodec) (D : DOpts) (X : SchemaX) (mi : Nat) (limit : Int
             · exact .inr h
             · exact .inl h.symm
 
+/-! ### the head on a resolved field, in normal form -/
+
+/-- the separator rule of a non-message field is satisfied -/
+def sepOK (fx : FieldX) (sep : Bool) : Bool := fx.f.kind.isMessage || sep
+
+theorem tdHead_found_eq (D : DOpts) (X : SchemaX) (d : MsgX) (limit : Int) (name : TName) (sep : Bool) (v : TV)
+    (sn so : Ints) (fx : FieldX) (hr : resolveText X d name = .found fx) :
+    tdHead D X d limit name sep v sn so =
+      if isSingular fx then
+        if sepOK fx sep then
+          match fx.oneofIdx with
+          | some o =>
+            if so.has o then .error .dupOneof
+            else if sn.has fx.f.num then .error .dup else .value fx (sn.set fx.f.num) (so.set o)
+          | none => if sn.has fx.f.num then .error .dup else .value fx (sn.set fx.f.num) so
+        else .error .noSep
+      else if fx.f.card = .repeated && !sepOK fx sep then .error .noSep else .value fx sn so := by
+  rw [tdHead_found D X d limit name sep v sn so fx hr]
+  cases hc : fx.f.card <;> cases hk : fx.f.kind.isMessage <;> cases sep <;>
+    simp [isSingular, sepOK, hc, hk] <;> rfl
+
+mutual
+theorem skipTFix_err (limit : Int) : ∀ (v : TV) (e : Err), skipTFix limit v = .error e → e = .depth
+  | .scalar _, _, h => by simp [skipTFix] at h
+  | .msg fs, e, h => by
+    rw [skipTFix] at h
+    split at h
+    · cases h; rfl
+    · exact skipTFieldsFix_err _ fs e h
+  | .list es, e, h => by
+    rw [skipTFix] at h
+    exact skipTElemsFix_err _ es e h
+theorem skipTFieldsFix_err (limit : Int) : ∀ (fs : TFields) (e : Err), skipTFieldsFix limit fs = .error e → e = .depth
+  | .nil, _, h => by simp [skipTFieldsFix] at h
+  | .cons _ _ v tl, e, h => by
+    rw [skipTFieldsFix] at h
+    cases hv : skipTFix limit v with
+    | error e' => rw [hv] at h; cases h; exact skipTFix_err limit v e hv
+    | ok _ => rw [hv] at h; exact skipTFieldsFix_err limit tl e h
+theorem skipTElemsFix_err (limit : Int) : ∀ (es : TElems) (e : Err), skipTElemsFix limit es = .error e → e = .depth
+  | .nil, _, h => by simp [skipTElemsFix] at h
+  | .cons (.scalar t) tl, e, h => by
+    simp only [skipTElemsFix] at h
+    exact skipTElemsFix_err limit tl e h
+  | .cons (.list es) tl, e, h => by
+    simp only [skipTElemsFix] at h
+    exact skipTElemsFix_err limit tl e h
+  | .cons (.msg fs) tl, e, h => by
+    simp only [skipTElemsFix] at h
+    split at h
+    · cases h; rfl
+    · cases hv : skipTFieldsFix (limit - 1) fs with
+      | error e' => rw [hv] at h; cases h; exact skipTFieldsFix_err _ fs e hv
+      | ok _ => rw [hv] at h; exact skipTElemsFix_err limit tl e h
+end
+
+/-- an unknown (or reserved) name fails only with "unknown field" or — after the repair — the depth error -/
+theorem tdHead_unknown_err (D : DOpts) (X : SchemaX) (d : MsgX) (limit : Int) (name : TName) (sep : Bool) (v : TV)
+    (sn so : Ints) (s0 : Str) (hr : resolveText X d name = .unknown s0) (e : Err)
+    (h : tdHead D X d limit name sep v sn so = .error e) : e = .unknown ∨ e = .depth := by
+  unfold tdHead at h
+  rw [hr] at h
+  simp only at h
+  split at h
+  · split at h
+    · cases hs : skipTFix limit v with
+      | error e' =>
+        rw [hs] at h
+        cases h
+        exact .inr (skipTFix_err limit v e hs)
+      | ok _ => rw [hs] at h; cases h
+    · cases h
+  · cases h; exact .inl rfl
+
+theorem tdHead_dup (D : DOpts) (X : SchemaX) (d : MsgX) (limit : Int) (name : TName) (sep : Bool) (v : TV) (sn so : Ints) :
+    tdHead D X d limit name sep v sn so = .error .dup ↔
+      ∃ fx, resolveText X d name = .found fx ∧ isSingular fx = true ∧ sepOK fx sep = true ∧
+        (∀ o, fx.oneofIdx = some o → so.has o = false) ∧ sn.has fx.f.num = true := by
+  cases hr : resolveText X d name with
+  | badNum => unfold tdHead; simp [hr]
+  | badExt => unfold tdHead; simp [hr]
+  | byNumber => unfold tdHead; simp [hr]
+  | unknown s0 =>
+    constructor
+    · intro h
+      rcases tdHead_unknown_err D X d limit name sep v sn so s0 hr .dup h with h | h <;> cases h
+    · rintro ⟨fx, h, _⟩; cases h
+  | found fx =>
+    rw [tdHead_found_eq D X d limit name sep v sn so fx hr]
+    simp only [TRes.found.injEq, exists_eq_left']
+    cases hs : isSingular fx
+    · simp only [Bool.false_eq_true, if_false, false_and, iff_false]
+      split <;> simp
+    · cases hp : sepOK fx sep
+      · simp
+      · cases ho : fx.oneofIdx with
+        | none => simp
+        | some o => cases hso : so.has o <;> simp [hso]
+
+theorem tdHead_dupOneof (D : DOpts) (X : SchemaX) (d : MsgX) (limit : Int) (name : TName) (sep : Bool) (v : TV) (sn so : Ints) :
+    tdHead D X d limit name sep v sn so = .error .dupOneof ↔
+      ∃ fx o, resolveText X d name = .found fx ∧ isSingular fx = true ∧ sepOK fx sep = true ∧
+        fx.oneofIdx = some o ∧ so.has o = true := by
+  cases hr : resolveText X d name with
+  | badNum => unfold tdHead; simp [hr]
+  | badExt => unfold tdHead; simp [hr]
+  | byNumber => unfold tdHead; simp [hr]
+  | unknown s0 =>
+    constructor
+    · intro h
+      rcases tdHead_unknown_err D X d limit name sep v sn so s0 hr .dupOneof h with h | h <;> cases h
+    · rintro ⟨fx, o, h, _⟩; cases h
+  | found fx =>
+    rw [tdHead_found_eq D X d limit name sep v sn so fx hr]
+    have hx : (∃ fx' o, TRes.found fx = TRes.found fx' ∧ isSingular fx' = true ∧ sepOK fx' sep = true ∧
+          fx'.oneofIdx = some o ∧ so.has o = true) ↔
+        (isSingular fx = true ∧ sepOK fx sep = true ∧ ∃ o, fx.oneofIdx = some o ∧ so.has o = true) := by
+      constructor
+      · rintro ⟨fx', o, h, h1, h2, h3, h4⟩; cases h; exact ⟨h1, h2, o, h3, h4⟩
+      · rintro ⟨h1, h2, o, h3, h4⟩; exact ⟨fx, o, rfl, h1, h2, h3, h4⟩
+    rw [hx]
+    cases hs : isSingular fx
+    · simp only [Bool.false_eq_true, if_false, false_and, iff_false]
+      split <;> simp
+    · cases hp : sepOK fx sep
+      · simp
+      · cases ho : fx.oneofIdx with
+        | none => simp only [if_true, true_and]; split <;> simp
+        | some o =>
+          cases hso : so.has o
+          · simp [hso]; split <;> simp
+          · simp [hso]
+
+/-- a non-repeated field named again, or a second member of a oneof, makes the head fail -/
+theorem tdHead_singular_seen (D : DOpts) (X : SchemaX) (d : MsgX) (limit : Int) (name : TName) (sep : Bool) (v : TV)
+    (sn so : Ints) (fx : FieldX) (hr : resolveText X d name = .found fx) (hs : isSingular fx = true)
+    (h : sn.has fx.f.num = true ∨ ∃ o, fx.oneofIdx = some o ∧ so.has o = true) :
+    ∃ e, tdHead D X d limit name sep v sn so = .error e := by
+  rw [tdHead_found_eq D X d limit name sep v sn so fx hr]
+  simp only [hs, if_true]
+  cases hp : sepOK fx sep
+  · exact ⟨_, rfl⟩
+  · simp only [if_true]
+    cases ho : fx.oneofIdx with
+    | none =>
+      rcases h with h | ⟨o, h, _⟩
+      · simp [h]
+      · rw [ho] at h; cases h
+    | some o =>
+      simp only
+      cases hso : so.has o
+      · rcases h with h | ⟨o', h, h2⟩
+        · simp [h]
+        · rw [ho] at h; cases h; rw [hso] at h2; cases h2
+      · simp
+
 end JT
